@@ -2,6 +2,7 @@ package main
 
 import (
 	"fmt"
+	"os"
 	"path/filepath"
 	"strings"
 
@@ -255,7 +256,7 @@ func c05Shapes(c *chk.Ctx, rng interface{ Intn(int) int }) []*spec.Spec {
 func c05(args []string) {
 	c := chk.New("C05", "exploration", args)
 	c.Build(false)
-	c.Rule("generated non-streaming graphs (C04 generator incl. processes without out-ports, slow leaves; in every third run all commands print 300 kB to stdout/stderr) plus directed shapes for the driver logic (independent leaves, out-port-less process beside sink-terminated branches, RunTo on an out-port-less target, RunToRegex with several patterns and with one pattern matching two processes, issue-#81 diamond with more tasks than buffer slots), plus close storms: command-free fan-ins of 2-8 one-file sources into one in-port, built and run 1500-3000 times inside one child process so that the upstreams close their connections at the same moment thousands of times (Run must return each time, every item must pass); oracle = the subject's own snapshot at the instant Run returns (listing, live children, monotonic stamp) vs. trace and reference, plus structural hang classification; history 'run killed inside a task's finalization, run again without cleanup': if that Run returns, no temp directory exists and every file is final; further directed shapes: a dependent globber behind several slow tasks, RunTo / RunToProcs where a parameter source or a file source feeds one process inside and one outside the run set with more items than buffer slots. distinct_nontrivial = distinct (graph shape, configuration, interleaving signature) of returned runs with >= 2 tasks")
+	c.Rule("generated non-streaming graphs (C04 generator incl. processes without out-ports, slow leaves; in every third run all commands print 300 kB to stdout/stderr) plus directed shapes for the driver logic (independent leaves, out-port-less process beside sink-terminated branches, RunTo on an out-port-less target, RunToRegex with several patterns and with one pattern matching two processes, issue-#81 diamond with more tasks than buffer slots), plus close storms: command-free fan-ins of 2-8 one-file sources into one in-port, built and run 1500-3000 times inside one child process so that the upstreams close their connections at the same moment thousands of times (Run must return each time, every item must pass); oracle = the subject's own snapshot at the instant Run returns (listing, live children, monotonic stamp) vs. trace and reference, plus structural hang classification; history 'complete run, an intermediate output removed, run again' through a Concatenator (with and without GroupByTag): Run returns only after the recomputed, slow task is done; history 'run killed inside a task's finalization, run again without cleanup': if that Run returns, no temp directory exists and every file is final; further directed shapes: a dependent globber behind several slow tasks, RunTo / RunToProcs where a parameter source or a file source feeds one process inside and one outside the run set with more items than buffer slots. distinct_nontrivial = distinct (graph shape, configuration, interleaving signature) of returned runs with >= 2 tasks")
 	c.Assume("SCIPIPE_BUFSIZE >= 1", "two processes without out-ports are refused by the library up front; that refusal (exit != 0, no command executed) is accepted", "hang verdicts only from the structural classifier (Go runtime deadlock report or all goroutines blocked), never from elapsed time")
 	rng := c.Rand("c05")
 	type job struct {
@@ -398,6 +399,7 @@ func c05(args []string) {
 	closeStorm(c, "files")
 	closeStorm(c, "params")
 	c05interruptedRerun(c)
+	c05componentRerun(c)
 	c.Finish()
 }
 
@@ -571,5 +573,85 @@ func c05interruptedRerun(c *chk.Ctx) {
 			return
 		}
 		c.Count("reruns_completed_cleanly", 1)
+	})
+}
+
+// c05componentRerun: history 'complete run, one intermediate output removed, run again' for workflows that gather
+// through a Concatenator: the second Run returns only after the recomputed task is done and everything is final.
+func c05componentRerun(c *chk.Ctx) {
+	run.Parallel(c.Pick(4, 12), func(i int) {
+		root := c.CaseDir()
+		defer c.Drop(root)
+		kind := []string{"concat", "concatgroup"}[i%2]
+		s := gen.Topo(kind, gen.ShapePlain, i%4 >= 2, root, 3)
+		exp := evalRef(s, nil)
+		if exp.Err != "" {
+			c.Broken("reference cannot evaluate " + s.Name + ": " + exp.Err)
+		}
+		cfg := Cfg{Buf: []int{128, 1}[i%2], Procs: 4}
+		desc := map[string]interface{}{"topology": kind, "history": "complete run, one output of the first step removed, run again", "spec": s, "cfg": cfg}
+		r1 := execSpec(c, root, s, cfg, nil, false, 0)
+		if r1.Hang != "" || r1.Exit != 0 || !r1.Returned {
+			if r1.Hang != "" && !strings.HasPrefix(r1.Hang, "deadlock") {
+				c.Inconclusive(r1.Hang)
+				return
+			}
+			c.Violation("exit-nonzero", fmt.Sprintf("first run: exit %d %s: %s", r1.Exit, r1.Hang, tail(r1.Output(), 400)), desc)
+			return
+		}
+		victim := exp.ByProc["A"][i%len(exp.ByProc["A"])]
+		for _, o := range victim.Outs {
+			os.Remove(filepath.Join(r1.Wd, o))
+			os.Remove(filepath.Join(r1.Wd, o+".audit.json"))
+		}
+		// the recomputed task is slow: whoever stops waiting for it returns early
+		bh := vproto.Behaviours{victim.Key: {"sleep": "400"}}
+		r2 := execSpec(c, root, s, cfg, bh, true, 1)
+		if r2.Hang != "" {
+			if strings.HasPrefix(r2.Hang, "deadlock") {
+				c.Violation("hang-"+r2.Hang, "re-run did not terminate: "+r2.Hang, desc)
+			} else {
+				c.Inconclusive(r2.Hang)
+			}
+			return
+		}
+		var ps []mon.Problem
+		if r2.Exit != 0 || !r2.Returned {
+			ps = append(ps, mon.Problem{Sig: "exit-nonzero", Msg: fmt.Sprintf("re-run: exit %d: %s", r2.Exit, tail(r2.Output(), 400))})
+		} else {
+			ti := mon.Index(r2.Trace)
+			for _, l := range r2.Ret.Listing {
+				if strings.Contains(l.Path, "_scipipe_tmp") {
+					ps = append(ps, mon.Problem{Sig: "early-return", Msg: "when Run returned " + l.Path + " existed"})
+					break
+				}
+			}
+			if len(r2.Ret.Children) > 0 {
+				ps = append(ps, mon.Problem{Sig: "early-return", Msg: fmt.Sprintf("when Run returned %d child processes were alive", len(r2.Ret.Children))})
+			}
+			if len(ti.Starts[victim.Key]) != 1 || len(ti.Ends[victim.Key]) != 1 {
+				ps = append(ps, mon.Problem{Sig: "early-return", Msg: "the task whose output was removed has not run to its end when the trace was read"})
+			}
+			for _, o := range victim.Outs {
+				found := false
+				for _, l := range r2.Ret.Listing {
+					if l.Path == filepath.Clean(o) {
+						found = true
+					}
+				}
+				if !found {
+					ps = append(ps, mon.Problem{Sig: "early-return", Msg: "when Run returned " + o + " was not at its final path"})
+				}
+			}
+		}
+		if len(ps) > 0 {
+			for _, sig := range sigSet(ps) {
+				desc["problems"] = mon.Summarize(ps, 10)
+				c.Violation(sig, fmt.Sprintf("%s, re-run after removing an output of A: %s", kind, strings.Join(mon.Summarize(ps, 4), "\n  ")), desc)
+			}
+			return
+		}
+		c.Count("component_rerun_histories", 1)
+		c.Nontrivial(fmt.Sprintf("comprerun|%s|%d", kind, i))
 	})
 }
